@@ -1,5 +1,130 @@
-"""Verus route (filled in below)."""
+"""Verus route: extract real functions from /repo now, splice contracts, run verus, map diagnostics to obligations."""
+import json, os, re, shutil, subprocess, tempfile, time
+
+import extract, scratch
+
+VERIF = scratch.VERIF
+TDIR = os.path.join(VERIF, "contracts", "verus")
+
+FALSIFIED_KINDS = [
+    "postcondition not satisfied", "assertion failed", "invariant not satisfied", "precondition not satisfied",
+    "possible arithmetic underflow/overflow", "possible division by zero", "decreases not satisfied",
+    "possible bit shift underflow/overflow", "recommendation not met", "loop invariant",
+    "unreachable", "index out of bounds", "possible", "might fail",
+]
+RESOURCE_KINDS = ["rlimit", "resource limit", "timed out", "timeout"]
 
 
-def run_unit(unit):
-    return {"unit": unit, "status": "undecided", "reason": "not implemented", "cmd": "verus"}
+def run_unit(unit, repo=None, keep=False):
+    t0 = time.time()
+    repo = repo or scratch.REPO
+    tpath = os.path.join(TDIR, unit + ".rs.tmpl")
+    rep = {"unit": unit, "status": "undecided", "reason": "", "cmd": "verus %s.rs --output-json --time (generated from %s)" % (unit, os.path.relpath(tpath, VERIF)),
+           "failed": [], "named": [], "obligations": 0, "verified": 0, "errors": 0}
+    if not os.path.exists(tpath):
+        rep["reason"] = "template missing"
+        return rep
+    tmpl = open(tpath).read()
+    try:
+        gen, notes, spans, originals = extract.expand(tmpl, repo)
+    except extract.LostAnchor as e:
+        rep["reason"] = "extraction failed (lost anchor): %s" % e
+        return rep
+    d = tempfile.mkdtemp(prefix="pdbverus-", dir=scratch.tmp_root())
+    try:
+        f = os.path.join(d, unit + ".rs")
+        open(f, "w").write(gen)
+        cmd = ["verus", f, "--output-json", "--time", "--rlimit", "60", "--num-threads", "8"]
+        try:
+            p = subprocess.run(cmd, stdout=subprocess.PIPE, stderr=subprocess.PIPE, text=True, timeout=900, errors="replace")
+        except subprocess.TimeoutExpired:
+            rep["reason"] = "verus timed out"
+            return rep
+        out, err = p.stdout, p.stderr
+        rep["extraction_notes"] = notes
+        rep["functions"] = [s[0] for s in spans]
+        rep["trusted_scan"] = scan(gen)
+        lines = gen.split("\n")
+        tags = {}
+        for i, l in enumerate(lines, 1):
+            m = re.search(r"//\s*@([\w.\-\[\]=<>]+)", l)
+            if m:
+                tags[i] = m.group(1)
+        rep["named"] = sorted(set(tags.values()))
+        try:
+            j = json.loads(out[out.index("{"):])
+        except Exception:
+            j = None
+        if j and "verification-results" in j:
+            vr = j["verification-results"]
+            rep["verified"] = vr.get("verified", 0)
+            rep["errors"] = vr.get("errors", 0)
+            rep["obligations"] = rep["verified"] + rep["errors"]
+            tm = j.get("times-ms", {})
+            rep["smt_s"] = round((tm.get("smt", {}).get("total", 0) if isinstance(tm.get("smt"), dict) else 0) / 1000.0, 2)
+            rep["verus_total_s"] = round(tm.get("total", 0) / 1000.0, 2) if isinstance(tm.get("total"), (int, float)) else None
+        else:
+            rep["reason"] = "verus produced no JSON result: " + (err[-1500:] or out[-1500:])
+            if keep:
+                rep["kept"] = d
+            return rep
+        # ---------------- diagnostics
+        blocks = re.split(r"\n(?=error|note|warning|help)", err)
+        hard = []
+        for b in blocks:
+            if not b.startswith("error"):
+                continue
+            head = b.split("\n", 1)[0]
+            if head.startswith("error: aborting") or "could not compile" in head:
+                continue
+            kind = head[len("error"):].lstrip(": ").strip()
+            pm = re.search(r"-->\s*[^:\n]+:(\d+):(\d+)", b)
+            pl = int(pm.group(1)) if pm else 0
+            gut = [int(x) for x in re.findall(r"^\s*(\d+)\s*\|", b, re.M)]
+            fn = None
+            for (name, a, z) in spans:
+                if a <= pl <= z:
+                    fn = name
+            names = [tags[g] for g in gut if g in tags]
+            clause_lines = [lines[g - 1].strip() for g in gut if 0 < g <= len(lines)]
+            low = kind.lower()
+            if any(k in low for k in RESOURCE_KINDS):
+                rep["status"] = "undecided"
+                rep["reason"] = "verus resource limit: " + head
+                return rep
+            if any(k in low for k in FALSIFIED_KINDS):
+                obl = names[0] if names else "%s.%s[%s]" % (unit, fn or "?", kind[:50])
+                rep["failed"].append({"obligation": obl, "clause": " | ".join(clause_lines[:4]), "function": fn,
+                                      "diag": b[:3000], "text": originals.get(fn, "")[:6000]})
+            else:
+                hard.append(head)
+        if hard:
+            rep["status"] = "undecided"
+            rep["reason"] = "verus rejected the generated file (unsupported construct / type error after upstream edit): " + "; ".join(hard[:3])
+            rep["diag"] = err[-3000:]
+            return rep
+        if rep["errors"] and not rep["failed"]:
+            rep["status"] = "undecided"
+            rep["reason"] = "verus reported errors that map to no obligation: " + err[-1500:]
+            return rep
+        if rep["verified"] == 0:
+            rep["status"] = "undecided"
+            rep["reason"] = "zero obligations verified (vacuous run)"
+            return rep
+        rep["status"] = "failed" if rep["failed"] else "verified"
+        rep["wall_s"] = round(time.time() - t0, 1)
+        return rep
+    finally:
+        if keep:
+            print("verus file kept at", d)
+        else:
+            shutil.rmtree(d, ignore_errors=True)
+
+
+def scan(text):
+    out = {}
+    for pat in [r"external_body", r"assume_specification", r"\badmit\(", r"\bassume\(", r"uninterp", r"external_type_specification", r"\baxiom\b"]:
+        n = len(re.findall(pat, text))
+        if n:
+            out["verus:" + pat.replace("\\b", "").replace("\\(", "(")] = n
+    return out
